@@ -142,105 +142,154 @@ theorem insertSorted_greatest (x : Name) (l : List Name) (h : ∀ y ∈ l, lexLt
     have hz : lexLt x z = false := lexLt_asymm _ _ (h z (by simp))
     simp [insertSorted, hz, ih (fun y hy => h y (List.mem_cons_of_mem _ hy))]
 
-/-! ### digits -/
+/-! ### sorting by an arbitrary order (the run-number order of `previous`) -/
 
-theorem digitChar_toNat (d : Nat) (h : d < 10) : (digitChar d).toNat = 48 + d := by
-  have : d = 0 ∨ d = 1 ∨ d = 2 ∨ d = 3 ∨ d = 4 ∨ d = 5 ∨ d = 6 ∨ d = 7 ∨ d = 8 ∨ d = 9 := by omega
-  rcases this with h | h | h | h | h | h | h | h | h | h <;> subst h <;> decide
+/-- what the sort lemmas need of an order: `lt` is asymmetric and `¬ lt` is transitive -/
+structure IsOrder (lt : Name → Name → Bool) : Prop where
+  asymm : ∀ a b, lt a b = true → lt b a = false
+  le_trans : ∀ a b c, lt b a = false → lt c b = false → lt c a = false
+
+theorem IsOrder.irrefl {lt : Name → Name → Bool} (h : IsOrder lt) (a : Name) : lt a a = false := by
+  cases hc : lt a a with
+  | false => rfl
+  | true => have := h.asymm a a hc; rw [hc] at this; cases this
+
+theorem lexLt_isOrder : IsOrder lexLt := ⟨lexLt_asymm, lexLe_trans⟩
+
+def SortedBy (lt : Name → Name → Bool) : List Name → Prop
+  | [] => True
+  | x :: xs => (∀ y ∈ xs, lt y x = false) ∧ SortedBy lt xs
+
+theorem mem_insertBy (lt : Name → Name → Bool) (x : Name) (l : List Name) (y : Name) :
+    y ∈ insertBy lt x l ↔ y = x ∨ y ∈ l := by
+  induction l with
+  | nil => simp [insertBy]
+  | cons z zs ih =>
+    simp only [insertBy]
+    split
+    · simp
+    · simp [ih]; constructor
+      · rintro (h | h | h) <;> simp [h]
+      · rintro (h | h | h) <;> simp [h]
+
+theorem mem_isortBy (lt : Name → Name → Bool) (l : List Name) (y : Name) : y ∈ isortBy lt l ↔ y ∈ l := by
+  induction l with
+  | nil => simp [isortBy]
+  | cons z zs ih => simp [isortBy, mem_insertBy, ih]
+
+theorem sortedBy_insertBy {lt : Name → Name → Bool} (ho : IsOrder lt) (x : Name) (l : List Name)
+    (h : SortedBy lt l) : SortedBy lt (insertBy lt x l) := by
+  induction l with
+  | nil => simp [insertBy, SortedBy]
+  | cons z zs ih =>
+    simp only [insertBy]
+    obtain ⟨hz, hs⟩ := h
+    split
+    · rename_i hlt
+      refine ⟨?_, hz, hs⟩
+      intro y hy
+      rcases List.mem_cons.mp hy with h | hy
+      · rw [h]; exact ho.asymm x z hlt
+      · exact ho.le_trans x z y (ho.asymm x z hlt) (hz y hy)
+    · rename_i hnlt
+      refine ⟨?_, ih hs⟩
+      intro y hy
+      rcases (mem_insertBy lt x zs y).mp hy with rfl | hy
+      · simpa using hnlt
+      · exact hz y hy
+
+theorem sortedBy_isortBy {lt : Name → Name → Bool} (ho : IsOrder lt) (l : List Name) : SortedBy lt (isortBy lt l) := by
+  induction l with
+  | nil => simp [isortBy, SortedBy]
+  | cons z zs ih => exact sortedBy_insertBy ho z _ ih
+
+/-- the last element of a sorted list is a maximum -/
+theorem sortedBy_getLast {lt : Name → Name → Bool} (ho : IsOrder lt) (l : List Name) (h : SortedBy lt l)
+    (m : Name) (hm : l.getLast? = some m) : m ∈ l ∧ ∀ y ∈ l, lt m y = false := by
+  induction l with
+  | nil => simp at hm
+  | cons z zs ih =>
+    obtain ⟨hz, hs⟩ := h
+    cases zs with
+    | nil =>
+      simp at hm
+      subst hm
+      simp [ho.irrefl]
+    | cons w ws =>
+      have hm' : (w :: ws).getLast? = some m := by simpa [List.getLast?_cons_cons] using hm
+      obtain ⟨hmem, hmax⟩ := ih hs hm'
+      refine ⟨List.mem_cons_of_mem _ hmem, ?_⟩
+      intro y hy
+      rcases List.mem_cons.mp hy with rfl | hy
+      · exact hz m hmem
+      · exact hmax y hy
+
+/-- inserting an element that is strictly greater than everything appends it -/
+theorem insertBy_greatest {lt : Name → Name → Bool} (ho : IsOrder lt) (x : Name) (l : List Name)
+    (h : ∀ y ∈ l, lt y x = true) : insertBy lt x l = l ++ [x] := by
+  induction l with
+  | nil => rfl
+  | cons z zs ih =>
+    have hz : lt x z = false := ho.asymm _ _ (h z (by simp))
+    simp [insertBy, hz, ih (fun y hy => h y (List.mem_cons_of_mem _ hy))]
+
+/-! ### digits -/
 
 theorem isDigit_iff (c : Char) : isDigit c = true ↔ 48 ≤ c.toNat ∧ c.toNat ≤ 57 := by
   simp [isDigit]
 
-theorem isDigit_digitChar (d : Nat) (h : d < 10) : isDigit (digitChar d) = true := by
-  rw [isDigit_iff, digitChar_toNat d h]; omega
+/-- core's `Char.isDigit` is the model's `isDigit` -/
+theorem isDigit_of_core (c : Char) (h : c.isDigit = true) : isDigit c = true := by
+  unfold Char.isDigit at h
+  unfold isDigit
+  simp only [Bool.and_eq_true, decide_eq_true_eq, ge_iff_le] at h ⊢
+  have h1 : (48 : Nat) ≤ c.val.toNat := UInt32.le_iff_toNat_le.mp h.1
+  have h2 : c.val.toNat ≤ (57 : Nat) := UInt32.le_iff_toNat_le.mp h.2
+  exact ⟨h1, h2⟩
 
-theorem digitVal_digitChar (d : Nat) (h : d < 10) : digitVal (digitChar d) = d := by
-  simp [digitVal, digitChar_toNat d h]
+/-- `int(ds)` is core's `Nat.ofDigitChars 10` -/
+theorem parseNat_eq (ds : Name) : parseNat ds = Nat.ofDigitChars 10 ds 0 := rfl
 
-theorem digitChar_digitVal (c : Char) (h : isDigit c = true) : digitChar (digitVal c) = c := by
-  rw [isDigit_iff] at h
-  apply Char.toNat_inj.mp
-  rw [digitChar_toNat _ (by unfold digitVal; omega)]
-  unfold digitVal; omega
+theorem toDigits_digits (n : Nat) : (Nat.toDigits 10 n).all isDigit = true := by
+  rw [List.all_eq_true]
+  intro c hc
+  exact isDigit_of_core c (Nat.isDigit_of_mem_toDigits (by decide) (by decide) hc)
 
-theorem list_length_four {α} (l : List α) (h : l.length = 4) : ∃ a b c d, l = [a, b, c, d] := by
-  match l, h with
-  | [a, b, c, d], _ => exact ⟨a, b, c, d, rfl⟩
+theorem isDigit_zero : isDigit '0' = true := by decide
 
-theorem fmt4_eq (n : Nat) (h : n < 10000) :
-    fmt4 n = [digitChar (n / 1000), digitChar (n / 100 % 10), digitChar (n / 10 % 10), digitChar (n % 10)] := by
-  simp [fmt4, h]
+/-- `f"{n:04}"` consists of digits … -/
+theorem fmt4_digits (n : Nat) : (fmt4 n).all isDigit = true := by
+  unfold fmt4
+  rw [List.all_append, toDigits_digits, Bool.and_true, List.all_eq_true]
+  intro c hc
+  rw [(List.mem_replicate.mp hc).2]
+  exact isDigit_zero
 
-theorem fmt4_length (n : Nat) (h : n < 10000) : (fmt4 n).length = 4 := by
-  simp [fmt4_eq n h]
-
-theorem fmt4_digits (n : Nat) (h : n < 10000) : (fmt4 n).all isDigit = true := by
-  simp only [fmt4_eq n h, List.all_cons, List.all_nil, Bool.and_true, Bool.and_eq_true]
-  refine ⟨isDigit_digitChar _ (by omega), isDigit_digitChar _ (by omega), isDigit_digitChar _ (by omega),
-    isDigit_digitChar _ (by omega)⟩
-
-theorem parseNat_four (a b c d : Char) :
-    parseNat [a, b, c, d] = 1000 * digitVal a + 100 * digitVal b + 10 * digitVal c + digitVal d := by
-  simp [parseNat, List.foldl]; omega
-
-theorem parseNat_fmt4 (n : Nat) (h : n < 10000) : parseNat (fmt4 n) = n := by
-  rw [fmt4_eq n h, parseNat_four, digitVal_digitChar _ (by omega), digitVal_digitChar _ (by omega),
-    digitVal_digitChar _ (by omega), digitVal_digitChar _ (by omega)]
+/-- … at least four of them … -/
+theorem fmt4_length (n : Nat) : 4 ≤ (fmt4 n).length := by
+  unfold fmt4
+  simp only [List.length_append, List.length_replicate]
   omega
 
-theorem digitVal_lt (c : Char) (h : isDigit c = true) : digitVal c < 10 := by
-  rw [isDigit_iff] at h; unfold digitVal; omega
+/-- … and `int()` reads the number back, for every `n` (no four-digit bound) -/
+theorem parseNat_fmt4 (n : Nat) : parseNat (fmt4 n) = n := by
+  unfold fmt4
+  rw [parseNat_eq, Nat.ofDigitChars_append, Nat.ofDigitChars_replicate_zero, Nat.mul_zero,
+    Nat.ofDigitChars_ten_toDigits]
 
-theorem parseNat_lt (ds : Name) (hl : ds.length = 4) (hd : ds.all isDigit = true) : parseNat ds < 10000 := by
-  obtain ⟨a, b, c, d, rfl⟩ := list_length_four ds hl
-  simp only [List.all_cons, List.all_nil, Bool.and_true, Bool.and_eq_true] at hd
-  rw [parseNat_four]
-  have := digitVal_lt a hd.1; have := digitVal_lt b hd.2.1
-  have := digitVal_lt c hd.2.2.1; have := digitVal_lt d hd.2.2.2
+/-- numbers below 10 000 get exactly four digits, larger ones their plain decimal digits -/
+theorem fmt4_length_small (n : Nat) (h : n < 10000) : (fmt4 n).length = 4 := by
+  have := (Nat.length_toDigits_le_iff (b := 10) (n := n) (k := 4) (by decide) (by decide)).mpr (by omega)
+  unfold fmt4
+  simp only [List.length_append, List.length_replicate]
   omega
 
-theorem fmt4_parseNat (ds : Name) (hl : ds.length = 4) (hd : ds.all isDigit = true) : fmt4 (parseNat ds) = ds := by
-  have hlt := parseNat_lt ds hl hd
-  obtain ⟨a, b, c, d, rfl⟩ := list_length_four ds hl
-  simp only [List.all_cons, List.all_nil, Bool.and_true, Bool.and_eq_true] at hd
-  rw [fmt4_eq _ hlt, parseNat_four]
-  have ha := digitVal_lt a hd.1; have hb := digitVal_lt b hd.2.1
-  have hc := digitVal_lt c hd.2.2.1; have hd' := digitVal_lt d hd.2.2.2
-  have e1 : (1000 * digitVal a + 100 * digitVal b + 10 * digitVal c + digitVal d) / 1000 = digitVal a := by omega
-  have e2 : (1000 * digitVal a + 100 * digitVal b + 10 * digitVal c + digitVal d) / 100 % 10 = digitVal b := by omega
-  have e3 : (1000 * digitVal a + 100 * digitVal b + 10 * digitVal c + digitVal d) / 10 % 10 = digitVal c := by omega
-  have e4 : (1000 * digitVal a + 100 * digitVal b + 10 * digitVal c + digitVal d) % 10 = digitVal d := by omega
-  rw [e1, e2, e3, e4, digitChar_digitVal a hd.1, digitChar_digitVal b hd.2.1, digitChar_digitVal c hd.2.2.1,
-    digitChar_digitVal d hd.2.2.2]
-
-/-- on four-digit strings the order of the strings is the order of the numbers -/
-theorem lexLt_digits4 (x y : Name) (hx : x.length = 4) (hy : y.length = 4)
-    (dx : x.all isDigit = true) (dy : y.all isDigit = true) :
-    lexLt x y = true ↔ parseNat x < parseNat y := by
-  obtain ⟨a, b, c, d, rfl⟩ := list_length_four x hx
-  obtain ⟨a', b', c', d', rfl⟩ := list_length_four y hy
-  simp only [List.all_cons, List.all_nil, Bool.and_true, Bool.and_eq_true, isDigit_iff] at dx dy
-  rw [parseNat_four, parseNat_four]
-  simp only [lexLt, digitVal]
-  obtain ⟨⟨_, _⟩, ⟨_, _⟩, ⟨_, _⟩, ⟨_, _⟩⟩ := dx
-  obtain ⟨⟨_, _⟩, ⟨_, _⟩, ⟨_, _⟩, ⟨_, _⟩⟩ := dy
-  split
-  · simp; omega
-  · split
-    · split
-      · simp; omega
-      · split
-        · split
-          · simp; omega
-          · split
-            · split
-              · simp; omega
-              · split
-                · simp; omega
-                · simp; omega
-            · simp; omega
-        · simp; omega
-    · simp; omega
+theorem fmt4_large (n : Nat) (h : 10000 ≤ n) : fmt4 n = Nat.toDigits 10 n := by
+  have : ¬ (Nat.toDigits 10 n).length ≤ 4 := fun hle =>
+    absurd ((Nat.length_toDigits_le_iff (b := 10) (n := n) (k := 4) (by decide) (by decide)).mp hle) (by omega)
+  unfold fmt4
+  have h0 : 4 - (Nat.toDigits 10 n).length = 0 := by omega
+  simp [h0]
 
 /-! ### run names -/
 
@@ -263,7 +312,7 @@ theorem stripPrefix_eq_some (p n r : Name) (h : stripPrefix p n = some r) : n = 
       · cases h
 
 theorem isRunOf_iff (base n : Name) :
-    isRunOf base n = true ↔ ∃ ds, n = base ++ runInfix ++ ds ∧ ds.length = 4 ∧ ds.all isDigit = true := by
+    isRunOf base n = true ↔ ∃ ds, n = base ++ runInfix ++ ds ∧ 4 ≤ ds.length ∧ ds.all isDigit = true := by
   unfold isRunOf
   constructor
   · intro h
@@ -278,45 +327,84 @@ theorem isRunOf_iff (base n : Name) :
 
 theorem runInfix_length : runInfix.length = 5 := rfl
 
-theorem isRunOf_runName (base : Name) (k : Nat) (h : k < 10000) : isRunOf base (runName base k) = true :=
-  (isRunOf_iff _ _).mpr ⟨fmt4 k, rfl, fmt4_length k h, fmt4_digits k h⟩
+/-- every run name is a run of its result name — for every run number -/
+theorem isRunOf_runName (base : Name) (k : Nat) : isRunOf base (runName base k) = true :=
+  (isRunOf_iff _ _).mpr ⟨fmt4 k, rfl, fmt4_length k, fmt4_digits k⟩
 
 theorem runNumber_append (base ds : Name) : runNumber base (base ++ runInfix ++ ds) = parseNat ds := by
   have : base.length + 5 = (base ++ runInfix).length := by simp [runInfix_length]
   rw [runNumber, this, List.drop_left]
 
-theorem runNumber_runName (base : Name) (k : Nat) (h : k < 10000) : runNumber base (runName base k) = k := by
+theorem runNumber_runName (base : Name) (k : Nat) : runNumber base (runName base k) = k := by
   unfold runName
-  rw [runNumber_append, parseNat_fmt4 k h]
+  rw [runNumber_append, parseNat_fmt4 k]
 
-/-- a run of `base` is `runName base` of its number -/
-theorem isRunOf_eq_runName (base n : Name) (h : isRunOf base n = true) :
-    n = runName base (runNumber base n) ∧ runNumber base n < 10000 := by
-  obtain ⟨ds, rfl, hl, hd⟩ := (isRunOf_iff _ _).mp h
-  rw [runNumber_append]
-  exact ⟨by unfold runName; rw [fmt4_parseNat ds hl hd], parseNat_lt ds hl hd⟩
+theorem runName_inj (base : Name) (j k : Nat) (h : runName base j = runName base k) : j = k := by
+  have := congrArg (runNumber base) h
+  rwa [runNumber_runName base j, runNumber_runName base k] at this
 
-/-- a run folder belongs to exactly one result name (D13) -/
+theorem takeWhile_append_stop (p : Char → Bool) (l r : List Char) (c : Char) (hl : l.all p = true)
+    (hc : p c = false) : (l ++ c :: r).takeWhile p = l := by
+  induction l with
+  | nil => simp [hc]
+  | cons x xs ih =>
+    simp only [List.all_cons, Bool.and_eq_true] at hl
+    simp [hl.1, ih hl.2]
+
+/-- the digits after `_run_` are all the trailing digits of the name -/
+theorem trailingDigits_run (b ds : Name) (hd : ds.all isDigit = true) :
+    trailingDigits (b ++ runInfix ++ ds) = ds := by
+  unfold trailingDigits
+  have hr : (b ++ runInfix ++ ds).reverse = ds.reverse ++ '_' :: (['n', 'u', 'r', '_'] ++ b.reverse) := by
+    simp [runInfix]
+  rw [hr, takeWhile_append_stop isDigit _ _ '_' (by simpa using hd) (by decide), List.reverse_reverse]
+
+/-- a run folder belongs to exactly one result name (D13) — also with run numbers of any length -/
 theorem isRunOf_unique (base base' n : Name) (h : isRunOf base n = true) (h' : isRunOf base' n = true) :
     base' = base := by
-  obtain ⟨ds, rfl, hl, _⟩ := (isRunOf_iff _ _).mp h
-  obtain ⟨ds', he, hl', _⟩ := (isRunOf_iff _ _).mp h'
-  have hlen : (base ++ runInfix ++ ds).length = (base' ++ runInfix ++ ds').length := by rw [he]
-  simp only [List.length_append, runInfix_length, hl, hl'] at hlen
-  have : base.length = base'.length := by omega
-  have h1 := List.append_inj (by rw [List.append_assoc, List.append_assoc] at he; exact he) this
-  exact h1.1.symm
+  obtain ⟨ds, rfl, _, hd⟩ := (isRunOf_iff _ _).mp h
+  obtain ⟨ds', he, _, hd'⟩ := (isRunOf_iff _ _).mp h'
+  have e1 := trailingDigits_run base ds hd
+  have e2 := trailingDigits_run base' ds' hd'
+  rw [he, e2] at e1
+  subst e1
+  have := List.append_cancel_right he
+  exact (List.append_cancel_right this).symm
 
-theorem runName_lt (base : Name) (j k : Nat) (hj : j < 10000) (hk : k < 10000) :
-    lexLt (runName base j) (runName base k) = true ↔ j < k := by
-  unfold runName
-  rw [lexLt_append_left, lexLt_digits4 _ _ (fmt4_length j hj) (fmt4_length k hk) (fmt4_digits j hj) (fmt4_digits k hk),
-    parseNat_fmt4 j hj, parseNat_fmt4 k hk]
+/-! ### the run-number order -/
 
-theorem runName_inj (base : Name) (j k : Nat) (hj : j < 10000) (hk : k < 10000)
-    (h : runName base j = runName base k) : j = k := by
-  have := congrArg (runNumber base) h
-  rwa [runNumber_runName base j hj, runNumber_runName base k hk] at this
+theorem runLt_isOrder (base : Name) : IsOrder (runLt base) := by
+  constructor
+  · intro a b h
+    simp only [runLt, Bool.or_eq_true, Bool.and_eq_true, decide_eq_true_eq] at h
+    simp only [runLt, Bool.or_eq_false_iff, Bool.and_eq_false_iff, decide_eq_false_iff_not]
+    rcases h with h | ⟨h1, h2⟩
+    · exact ⟨by omega, Or.inl (by omega)⟩
+    · exact ⟨by omega, Or.inr (lexLt_asymm a b h2)⟩
+  · intro a b c h1 h2
+    simp only [runLt, Bool.or_eq_false_iff, Bool.and_eq_false_iff, decide_eq_false_iff_not] at h1 h2 ⊢
+    refine ⟨by omega, ?_⟩
+    by_cases hca : runNumber base c = runNumber base a
+    · right
+      have hba : runNumber base b = runNumber base a := by omega
+      have hcb : runNumber base c = runNumber base b := by omega
+      have l1 : lexLt b a = false := by
+        rcases h1.2 with h | h
+        · exact absurd hba h
+        · exact h
+      have l2 : lexLt c b = false := by
+        rcases h2.2 with h | h
+        · exact absurd hcb h
+        · exact h
+      exact lexLe_trans a b c l1 l2
+    · exact Or.inl hca
+
+theorem runLt_of_number_lt (base a b : Name) (h : runNumber base a < runNumber base b) : runLt base a b = true := by
+  simp [runLt, h]
+
+theorem number_le_of_not_runLt (base a b : Name) (h : runLt base a b = false) : runNumber base b ≤ runNumber base a := by
+  simp only [runLt, Bool.or_eq_false_iff, decide_eq_false_iff_not] at h
+  omega
 
 /-! ### directory listing -/
 
@@ -369,7 +457,7 @@ theorem previous_setEntry_other (d : Dir) (n base : Name) (k : Kind) (h : isRunO
 
 theorem previous_setEntry_run (d : Dir) (n base : Name) (k : Kind) (h : isRunOf base n = true)
     (hfresh : n ∉ names d) :
-    previous (setEntry d n k) base = insertSorted n (previous d base) := by
+    previous (setEntry d n k) base = insertBy (runLt base) n (previous d base) := by
   unfold previous
   rw [names_setEntry]
   have : (names d).filter (fun m => m ≠ n) = names d := by
@@ -378,76 +466,58 @@ theorem previous_setEntry_run (d : Dir) (n base : Name) (k : Kind) (h : isRunOf 
     have : m ≠ n := fun e => hfresh (e ▸ hm)
     simpa using this
   rw [this]
-  simp [h, isort]
+  simp [h, isortBy]
 
 theorem mem_previous (d : Dir) (base l : Name) : l ∈ previous d base ↔ l ∈ names d ∧ isRunOf base l = true := by
-  simp [previous, mem_isort]
+  simp [previous, mem_isortBy]
 
 /-! ### the next run name -/
 
-/-- every existing run of `base` has a number below 9999 (so the next one still has four digits) -/
-def RoomFor (d : Dir) (base : Name) : Prop := ∀ l ∈ previous d base, runNumber base l < 9999
-
-theorem createRunName_spec (d : Dir) (base : Name) (hb : RoomFor d base) :
-    ∃ k, k < 10000 ∧ createRunName d base = runName base k ∧
-      (∀ l ∈ previous d base, runNumber base l < k) ∧
-      (∀ l ∈ previous d base, lexLt l (runName base k) = true) := by
+/-- `create_result_run_name`: the next run name is `runName base k` for a `k` above the number of
+    every existing run of `base` — in every results folder, with no bound on the run numbers -/
+theorem createRunName_spec (d : Dir) (base : Name) :
+    ∃ k, createRunName d base = runName base k ∧ ∀ l ∈ previous d base, runNumber base l < k := by
   unfold createRunName
   cases hlast : (previous d base).getLast? with
   | none =>
     have : previous d base = [] := List.getLast?_eq_none_iff.mp hlast
-    exact ⟨0, by omega, rfl, by simp [this], by simp [this]⟩
+    exact ⟨0, rfl, by simp [this]⟩
   | some last =>
-    obtain ⟨hmem, hmax⟩ := sorted_getLast _ (sorted_isort _) last hlast
-    have hlastRun := ((mem_previous d base last).mp hmem).2
-    obtain ⟨hlastEq, hlastLt⟩ := isRunOf_eq_runName base last hlastRun
-    have hk : runNumber base last + 1 < 10000 := by have := hb last hmem; omega
-    refine ⟨runNumber base last + 1, hk, rfl, ?_, ?_⟩
-    · intro l hl
-      have hlRun := ((mem_previous d base l).mp hl).2
-      obtain ⟨hlEq, hlLt⟩ := isRunOf_eq_runName base l hlRun
-      have h1 := hmax l hl
-      rw [hlastEq, hlEq] at h1
-      have h2 : ¬ runNumber base last < runNumber base l := fun hlt => by
-        have := (runName_lt base (runNumber base last) (runNumber base l) hlastLt hlLt).mpr hlt
-        rw [h1] at this; cases this
-      omega
-    · intro l hl
-      have hlRun := ((mem_previous d base l).mp hl).2
-      obtain ⟨hlEq, hlLt⟩ := isRunOf_eq_runName base l hlRun
-      have h1 := hmax l hl
-      rw [hlastEq, hlEq] at h1
-      have h2 : ¬ runNumber base last < runNumber base l := fun hlt => by
-        have := (runName_lt base (runNumber base last) (runNumber base l) hlastLt hlLt).mpr hlt
-        rw [h1] at this; cases this
-      rw [hlEq]
-      exact (runName_lt base (runNumber base l) (runNumber base last + 1) hlLt hk).mpr (by omega)
+    obtain ⟨_, hmax⟩ := sortedBy_getLast (runLt_isOrder base) _ (sortedBy_isortBy (runLt_isOrder base) _) last hlast
+    refine ⟨runNumber base last + 1, rfl, ?_⟩
+    intro l hl
+    have := number_le_of_not_runLt base last l (hmax l hl)
+    omega
 
-theorem createRunName_fresh (d : Dir) (base : Name) (hb : RoomFor d base) : createRunName d base ∉ names d := by
-  obtain ⟨k, hk, he, _, hlt⟩ := createRunName_spec d base hb
+theorem createRunName_fresh (d : Dir) (base : Name) : createRunName d base ∉ names d := by
+  obtain ⟨k, he, hlt⟩ := createRunName_spec d base
   intro hmem
   rw [he] at hmem
-  have := hlt _ ((mem_previous d base _).mpr ⟨hmem, isRunOf_runName base k hk⟩)
-  rw [lexLt_irrefl] at this
-  cases this
+  have := hlt _ ((mem_previous d base _).mpr ⟨hmem, isRunOf_runName base k⟩)
+  rw [runNumber_runName] at this
+  omega
 
-theorem save_eq (d : Dir) (base : Name) (payload : Nat) (hb : RoomFor d base) :
+theorem save_eq (d : Dir) (base : Name) (payload : Nat) :
     save d base payload = (setEntry d (createRunName d base) (.run payload), .saved (createRunName d base)) := by
-  have h := (kindOf_none_iff d _).mpr (createRunName_fresh d base hb)
+  have h := (kindOf_none_iff d _).mpr (createRunName_fresh d base)
   simp [save, h]
 
-theorem previous_save_self (d : Dir) (base : Name) (payload : Nat) (hb : RoomFor d base) :
+theorem previous_save_self (d : Dir) (base : Name) (payload : Nat) :
     previous (save d base payload).1 base = previous d base ++ [createRunName d base] := by
-  obtain ⟨k, hk, he, _, hlt⟩ := createRunName_spec d base hb
-  rw [save_eq d base payload hb]
+  obtain ⟨k, he, hlt⟩ := createRunName_spec d base
+  rw [save_eq d base payload]
   simp only
-  rw [previous_setEntry_run d _ base _ (by rw [he]; exact isRunOf_runName base k hk) (createRunName_fresh d base hb)]
-  exact insertSorted_greatest _ _ (by rw [he]; exact hlt)
+  rw [previous_setEntry_run d _ base _ (by rw [he]; exact isRunOf_runName base k) (createRunName_fresh d base)]
+  apply insertBy_greatest (runLt_isOrder base)
+  intro y hy
+  apply runLt_of_number_lt
+  rw [he, runNumber_runName]
+  exact hlt y hy
 
-theorem previous_save_other (d : Dir) (base base' : Name) (payload : Nat) (hb : RoomFor d base)
+theorem previous_save_other (d : Dir) (base base' : Name) (payload : Nat)
     (hne : base' ≠ base) : previous (save d base payload).1 base' = previous d base' := by
-  obtain ⟨k, hk, he, _, _⟩ := createRunName_spec d base hb
-  rw [save_eq d base payload hb]
+  obtain ⟨k, he, _⟩ := createRunName_spec d base
+  rw [save_eq d base payload]
   simp only
   apply previous_setEntry_other
   cases h : isRunOf base' (createRunName d base) with
@@ -455,7 +525,7 @@ theorem previous_save_other (d : Dir) (base base' : Name) (payload : Nat) (hb : 
   | true =>
     exfalso
     rw [he] at h
-    exact hne (isRunOf_unique base base' _ (isRunOf_runName base k hk) h)
+    exact hne (isRunOf_unique base base' _ (isRunOf_runName base k) h)
 
 theorem kindOf_save_run (d : Dir) (base n : Name) (payload p : Nat) (h : kindOf d n = some (.run p)) :
     kindOf (save d base payload).1 n = some (.run p) := by
@@ -468,6 +538,81 @@ theorem kindOf_save_run (d : Dir) (base n : Name) (payload p : Nat) (h : kindOf 
     cases hk : kindOf d (createRunName d base) with
     | none => simp only [hk]; exact key _
     | some k => cases k <;> simp only [hk] <;> first | exact h | exact key _
+
+/-! ### run specifiers at the end of a name -/
+
+/-- a name of the form `b_run_<four or more digits>` ends with a run specifier, which
+    `re.sub(run_specifier_pattern, "", ·)` removes, leaving `b` -/
+theorem endsWithRunSpecifier_run (b ds : Name) (hl : 4 ≤ ds.length) (hd : ds.all isDigit = true) :
+    endsWithRunSpecifier (b ++ runInfix ++ ds) = true ∧ stripRunSpecifier (b ++ runInfix ++ ds) = b := by
+  have hlen : (b ++ runInfix ++ ds).length = b.length + 5 + ds.length := by simp [runInfix_length]; omega
+  have hsub : (b ++ runInfix ++ ds).length - ds.length - 5 = b.length := by omega
+  have hends : endsWithRunSpecifier (b ++ runInfix ++ ds) = true := by
+    unfold endsWithRunSpecifier
+    simp only [trailingDigits_run b ds hd, hsub]
+    have hdrop : (b ++ runInfix ++ ds).drop b.length = runInfix ++ ds := by
+      rw [List.append_assoc, List.drop_left]
+    have h5 : (runInfix ++ ds).take 5 = runInfix := by
+      have : (5 : Nat) = runInfix.length := rfl
+      rw [this, List.take_left]
+    rw [hdrop, h5]
+    simp only [hlen, Bool.and_eq_true, decide_eq_true_eq, beq_self_eq_true, and_true]
+    omega
+  refine ⟨hends, ?_⟩
+  unfold stripRunSpecifier
+  rw [hends, trailingDigits_run b ds hd, hsub]
+  simp only [if_true]
+  rw [List.append_assoc, List.take_left]
+
+/-- `result_pattern` needs at least one character in front of the run specifier -/
+theorem hasRunSuffix_run (b ds : Name) (hl : 4 ≤ ds.length) (hd : ds.all isDigit = true) :
+    hasRunSuffix (b ++ runInfix ++ ds) = decide (b ≠ []) := by
+  unfold hasRunSuffix
+  rw [(endsWithRunSpecifier_run b ds hl hd).1, trailingDigits_run b ds hd]
+  cases b with
+  | nil => simp [runInfix_length]; omega
+  | cons c cs => simp [runInfix_length] <;> omega
+
+theorem trailingDigits_digits (n : Name) : (trailingDigits n).all isDigit = true := by
+  unfold trailingDigits
+  rw [List.all_reverse, List.all_takeWhile]
+
+theorem trailingDigits_suffix (n : Name) : n = n.take (n.length - (trailingDigits n).length) ++ trailingDigits n := by
+  unfold trailingDigits
+  have h := List.takeWhile_append_dropWhile (p := isDigit) (l := n.reverse)
+  have h2 := congrArg List.reverse h
+  rw [List.reverse_append, List.reverse_reverse] at h2
+  have hl : ((n.reverse.dropWhile isDigit).reverse).length = n.length - ((n.reverse.takeWhile isDigit).reverse).length := by
+    have := congrArg List.length h2
+    simp only [List.length_append, List.length_reverse] at this ⊢
+    omega
+  generalize (n.reverse.dropWhile isDigit).reverse = A at h2 hl
+  generalize (n.reverse.takeWhile isDigit).reverse = B at h2 hl ⊢
+  subst h2
+  rw [← hl, List.take_left]
+
+/-- conversely: a name that ends with a run specifier is `stripRunSpecifier n ++ "_run_" ++ digits` -/
+theorem endsWithRunSpecifier_split (n : Name) (h : endsWithRunSpecifier n = true) :
+    n = stripRunSpecifier n ++ runInfix ++ trailingDigits n ∧ 4 ≤ (trailingDigits n).length := by
+  have hs : stripRunSpecifier n = n.take (n.length - (trailingDigits n).length - 5) := by
+    simp [stripRunSpecifier, h]
+  unfold endsWithRunSpecifier at h
+  simp only [Bool.and_eq_true, decide_eq_true_eq, beq_iff_eq] at h
+  obtain ⟨⟨h4, hk⟩, hinf⟩ := h
+  refine ⟨?_, h4⟩
+  rw [hs]
+  have h1 := trailingDigits_suffix n
+  -- the part in front of the digits splits into the stripped name and `_run_`
+  have h2 : n.take (n.length - (trailingDigits n).length)
+      = n.take (n.length - (trailingDigits n).length - 5) ++ runInfix := by
+    have hsplit := List.take_append_drop (n.length - (trailingDigits n).length - 5) (n.take (n.length - (trailingDigits n).length))
+    rw [List.take_take, Nat.min_eq_left (by omega)] at hsplit
+    rw [← hsplit]
+    congr 1
+    rw [List.drop_take]
+    have : n.length - (trailingDigits n).length - (n.length - (trailingDigits n).length - 5) = 5 := by omega
+    rw [this]; exact hinf
+  conv => lhs; rw [h1, h2]
 
 /-! ### `ProjectRegistry.items` on the results folder -/
 
